@@ -951,6 +951,35 @@ func (schema *Schema) reachesItselfByComposition(path []*Schema, cleared map[*Sc
 	return false
 }
 
+// reachesCompositionCycle reports whether a schema that includes itself through oneOf, anyOf, allOf
+// or not can be reached from the schema along any edge (properties, items, additionalProperties,
+// compositions): a value cannot be checked against such a graph.
+func (schema *Schema) reachesCompositionCycle(seen, cleared map[*Schema]struct{}) bool {
+	if _, ok := seen[schema]; ok {
+		return false
+	}
+	seen[schema] = struct{}{}
+	if schema.reachesItselfByComposition(nil, cleared) {
+		return true
+	}
+	next := func(ref *SchemaRef) bool {
+		return ref != nil && ref.Value != nil && ref.Value.reachesCompositionCycle(seen, cleared)
+	}
+	for _, refs := range []SchemaRefs{schema.OneOf, schema.AnyOf, schema.AllOf, {schema.Not, schema.Items, schema.AdditionalProperties.Schema}} {
+		for _, ref := range refs {
+			if next(ref) {
+				return true
+			}
+		}
+	}
+	for _, ref := range schema.Properties {
+		if next(ref) {
+			return true
+		}
+	}
+	return false
+}
+
 // returns the updated stack and an error if Schema does not comply with the OpenAPI spec.
 func (schema *Schema) validate(ctx context.Context, stack []*Schema) ([]*Schema, error) {
 	validationOpts := getValidationOptions(ctx)
@@ -1138,6 +1167,19 @@ func (schema *Schema) validate(ctx context.Context, stack []*Schema) ([]*Schema,
 		if err := v.Validate(ctx); err != nil {
 			return stack, fmt.Errorf("invalid discriminator: %w", err)
 		}
+	}
+
+	// a default or an example is checked by visiting it: not before it is known that no schema below
+	// (one that an ancestor on the stack has yet to validate, too) includes itself through composition
+	visitsValue := false
+	if schema.Default != nil && !validationOpts.schemaDefaultsValidationDisabled {
+		visitsValue = true
+	}
+	if schema.Example != nil && !validationOpts.examplesValidationDisabled {
+		visitsValue = true
+	}
+	if visitsValue && schema.reachesCompositionCycle(make(map[*Schema]struct{}), make(map[*Schema]struct{})) {
+		return stack, errors.New("schema reaches a schema that includes itself through oneOf, anyOf, allOf or not: no value can be checked against it")
 	}
 
 	if v := schema.Default; v != nil && !validationOpts.schemaDefaultsValidationDisabled {
